@@ -24,7 +24,7 @@ class Params(dict):
         n_nodes=8, n_inputs=2, n_inits=2, n_outputs=2, p_if=0.15, p_call=0.1, n_functions=1, depth=2, typed=True,
         name_noise=0.0, unsorted=False, p_dup=0.2, p_const=0.15, p_multi=0.1, p_unused=0.1, p_optional=0.05, metadata=False,
         big_init=False, dup_inits=False, unused_function=False, ir_version=10, init_as_input=0.2, lazy_failing_init=False,
-        p_func_subgraph=0.35, annot_noise=0.0, name_style=0, func_name_overlap=0.0, p_graphs=0.0, more_ops=False, alias_outputs=0.0, ref_graph_attrs=0.0,
+        p_func_subgraph=0.35, annot_noise=0.0, name_style=0, func_name_overlap=0.0, p_graphs=0.0, more_ops=False, alias_outputs=0.0, ref_graph_attrs=0.0, hinted_inputs=0.0,
     )  # fmt: skip
 
     def __init__(self, **kw):
@@ -385,6 +385,13 @@ def gen_model(rng, p: Params | None = None) -> ir.Model:
             graph.outputs.append(rng.choice(list(graph.initializers.values())))
         elif len(graph.outputs):
             graph.outputs.append(graph.outputs[rng.randrange(len(graph.outputs))])
+    hi = p.get("hinted_inputs", 0.0)
+    if hi:
+        # a plain graph input that merely carries a tensor (a constant hint, or what `initializers.pop(name)` leaves
+        # behind): it is NOT an initializer and its tensor is not serialized
+        for v in list(graph.inputs):
+            if v.const_value is None and not v.is_initializer() and (zlib.crc32(("hint" + (v.name or "")).encode()) % 100) < hi * 100:
+                v.const_value = _tensor(random.Random(zlib.crc32((v.name or "").encode())), v.name)
     if functions:
         graph.opset_imports["fdom"] = 1
     if b.uses_custom:
